@@ -197,6 +197,80 @@ theorem transparent_iff (key : A → K) (f : A → B) :
   · intro hkey hist
     exact (run_pure key f hkey [] (by intro k b hm; cases hm) hist).1
 
+/-- a history may be cut anywhere: running `h₁ ++ h₂` is running `h₁` and then `h₂` on the table left behind — call
+    boundaries (one `predict` per point, one `chisq` over many) carry no state but the table -/
+theorem run_append (key : A → K) (f : A → B) (tbl : List (K × B)) (h₁ h₂ : List A) :
+    run key f tbl (h₁ ++ h₂) =
+      ((run key f tbl h₁).1 ++ (run key f (run key f tbl h₁).2 h₂).1, (run key f (run key f tbl h₁).2 h₂).2) := by
+  induction h₁ generalizing tbl with
+  | nil => simp [run]
+  | cons a rest ih => simp only [List.cons_append, run, ih]
+
+theorem lookup_none_iff {tbl : List (K × B)} {k : K} : lookup tbl k = none ↔ k ∉ tbl.map Prod.fst := by
+  induction tbl with
+  | nil => simp [lookup]
+  | cons e r ih =>
+    obtain ⟨k', b'⟩ := e
+    simp only [lookup, List.map_cons, List.mem_cons, not_or]
+    by_cases hk : k' = k
+    · simp [hk]
+    · simp only [hk, if_false, ih]
+      exact ⟨fun h => ⟨fun h' => hk h'.symm, h⟩, fun h => h.2⟩
+
+/-- entries are only ever appended: nothing stored is overwritten, evicted or reordered by later calls -/
+theorem run_table_prefix (key : A → K) (f : A → B) (tbl : List (K × B)) (hist : List A) :
+    tbl <+: (run key f tbl hist).2 := by
+  induction hist generalizing tbl with
+  | nil => exact List.prefix_refl _
+  | cons a rest ih =>
+    simp only [run]
+    refine List.IsPrefix.trans ?_ (ih _)
+    unfold call
+    cases lookup tbl (key a) with
+    | some b => exact List.prefix_refl _
+    | none => exact List.prefix_append _ _
+
+/-- one entry per key, whatever the history: the table never holds two values for one key -/
+theorem run_keys_nodup (key : A → K) (f : A → B) (tbl : List (K × B)) (hist : List A)
+    (h : (tbl.map Prod.fst).Nodup) : ((run key f tbl hist).2.map Prod.fst).Nodup := by
+  induction hist generalizing tbl with
+  | nil => exact h
+  | cons a rest ih =>
+    simp only [run]
+    apply ih
+    unfold call
+    cases hl : lookup tbl (key a) with
+    | some b => exact h
+    | none =>
+      simp only [List.map_append, List.map_cons, List.map_nil]
+      rw [List.nodup_append]
+      refine ⟨h, List.nodup_cons.2 ⟨List.not_mem_nil, List.nodup_nil⟩, ?_⟩
+      intro x hx y hy
+      simp only [List.mem_singleton] at hy
+      subst hy
+      intro hxy; subst hxy
+      exact (lookup_none_iff.1 hl) hx
+
+theorem lookup_append_miss {tbl : List (K × B)} {k : K} (b : B) (h : lookup tbl k = none) :
+    lookup (tbl ++ [(k, b)]) k = some b := by
+  induction tbl with
+  | nil => simp [lookup]
+  | cons e r ih =>
+    obtain ⟨k', b'⟩ := e
+    simp only [lookup] at h
+    simp only [List.cons_append, lookup]
+    split
+    · rename_i hk; simp [hk] at h
+    · rename_i hk; simp only [hk, if_false] at h; exact ih h
+
+/-- a repeated argument does not touch the table and returns what the first evaluation returned -/
+theorem call_hit_keeps_table (key : A → K) (f : A → B) (tbl : List (K × B)) (a : A) :
+    call key f (call key f tbl a).2 a = ((call key f tbl a).1, (call key f tbl a).2) := by
+  unfold call
+  cases hl : lookup tbl (key a) with
+  | some b => simp [hl]
+  | none => simp [lookup_append_miss (f a) hl]
+
 /-- non-vacuity: a table keyed by Q² alone for a function of (Q², skewness) — the second call is wrong -/
 example : (run (fun p : Nat × Nat => p.1) (fun p => p.1 + p.2) [] [(4, 0), (4, 1)]).1 = [4, 4] := by decide
 
